@@ -21,6 +21,7 @@ TInit == /\ l = 2 /\ Trace[1].ev = "reset"
          /\ ckind = [c \in Closers |-> Trace[1].kinds[c]]
          /\ cres = [c \in Closers |-> ""]
          /\ ctxdone = [c \in Closers |-> FALSE]
+         /\ appclosed = FALSE /\ lerr = [c \in Closers |-> FALSE]
 
 TReset == /\ l <= Len(Trace) /\ Ev.ev = "reset" /\ Consume
           /\ done' = FALSE /\ lclosed' = FALSE /\ serve' = "accepting" /\ serveRes' = ""
@@ -29,6 +30,7 @@ TReset == /\ l <= Len(Trace) /\ Ev.ev = "reset" /\ Consume
           /\ ckind' = [c \in Closers |-> Ev.kinds[c]]
           /\ cres' = [c \in Closers |-> ""]
           /\ ctxdone' = [c \in Closers |-> FALSE]
+          /\ appclosed' = FALSE /\ lerr' = [c \in Closers |-> FALSE]
 
 Silent == /\ l' = l
           /\ \/ BackoffOver
@@ -39,6 +41,8 @@ Logged ==
   /\ CASE Ev.ev = "dial" -> AcceptConn
        [] Ev.ev = "temp" -> AcceptTemp
        [] Ev.ev = "perm" -> AcceptPerm
+       [] Ev.ev = "appclose" -> AppCloseListener
+       [] Ev.ev = "serveret-appclosed" -> AcceptAppClosed
        [] Ev.ev = "serveret" -> (AcceptClosed \/ (serve = "returned" /\ UNCHANGED vars)) /\ serveRes' = Ev.res
        [] Ev.ev = "connfinish" -> ConnFinish(Ev.k)
        [] Ev.ev = "call" -> Begin(Ev.c) /\ ckind[Ev.c] = Ev.kind
